@@ -903,6 +903,16 @@ func (e *Enc) writeSetOf(instrs []ssa.Instruction, inRegion func(ssa.Instruction
 						srt := arrSort(arrSort(e.reg.sortOf(el)))
 						ws.coarse[name] = srt
 					}
+					if x.Call.Value.Name() == "clear" {
+						switch u := x.Call.Args[0].Type().Underlying().(type) {
+						case *types.Slice:
+							name := elemHeapName(u.Elem())
+							ws.coarse[name] = arrSort(arrSort(e.reg.sortOf(u.Elem())))
+						case *types.Map:
+							d, _ := mapHeapNames(u)
+							ws.coarse[d] = arrSort(arrSort2(e.reg.sortOf(u.Key()), sBool))
+						}
+					}
 					if x.Call.Value.Name() == "copy" {
 						el := x.Call.Args[0].Type().Underlying().(*types.Slice).Elem()
 						name := elemHeapName(el)
